@@ -298,8 +298,8 @@ class Writer(BaseValidator):
         for check in self.cid.check_map.values():
             check.reset()
 
-        data_format = cid_or_path.data_format
-        assert self.cid.data_format.is_valid
+        data_format = self.cid.data_format
+        assert data_format.is_valid
         self._header = data_format.header
         self._delegated_writer = None
         if data_format.format == data.FORMAT_DELIMITED:
